@@ -299,6 +299,45 @@ def runPrio (c : Cfg) (prio : List Actor) : Nat → St → St
     | some s' => runPrio c prio fuel s'
     | none => s
 
+/-! ### the code as it is now: `onceChan.write` is `select { case oc.channel <- val: default: }`
+
+`step` keeps the weaker form the code had before (`if CAS(&wrote,0,1) { channel <- val }`: two steps `pwrite`,
+`psend` with other goroutines in between — `Props.generator_panic_can_be_lost` lives in that window).  The
+non-blocking send into the capacity-1 channel is ONE atomic channel operation: it is the CAS form with the
+winner sending at once.  `stepA` is that fusion: whenever an actor's step lands on its `psend`, the send is
+executed in the same atomic action.  Every `stepA`-run is a `step`-run (`ProofsW.reachA_reach`), so every
+theorem about `Reach` holds for `ReachA`; in `ReachA` nobody ever stands between the CAS and the send, and
+`wrote` is exactly "the buffer was filled" (`ProofsW.InvQ.j`).  Abstraction (documented): after the caller has
+emptied the buffer (`consumed`), a later write of the real code re-fills it, the model's does not (`wrote`
+stays true); the buffer is never read again after `consumed` (the caller reads it at most once: `callerPanic`
+or `check`), so no step of any actor depends on the difference. -/
+
+/-- actor `a` stands at the send of `onceChan.write`. -/
+def atPsend (s : St) : Actor → Bool
+  | .gen => s.gpc = .psend
+  | .mapper i => s.mp i = .psend
+  | .red => match s.rpc with
+    | .psend _ => true
+    | _ => false
+  | _ => false
+
+def stepA (c : Cfg) (s : St) (a : Actor) : Option St :=
+  match step c s a with
+  | none => none
+  | some s1 => if atPsend s1 a then step c s1 a else some s1
+
+/-- every configuration some schedule of the code as it is now can reach. -/
+inductive ReachA (c : Cfg) : St → Prop
+  | init : ReachA c (init c)
+  | step {s s' : St} (a : Actor) : ReachA c s → stepA c s a = some s' → ReachA c s'
+
+def runPrioA (c : Cfg) (prio : List Actor) : Nat → St → St
+  | 0, s => s
+  | fuel + 1, s =>
+    match prio.findSome? (fun a => stepA c s a) with
+    | some s' => runPrioA c prio fuel s'
+    | none => s
+
 def result (s : St) : Option Res :=
   match s.cpc with
   | .done r => some r
